@@ -43,6 +43,9 @@ PUNCT = {";": "SEMICOLON", ",": "COMMA", ".": "DOT", "(": "L_PAREN", ")": "R_PAR
 UNITS = ["dt", "ns", "us", "ms", "µs", "s", "im"]
 WS_CHARS = ["\t", "\n", "\x0b", "\x0c", "\r", " ", "\u0085", "\u200e", "\u200f", "\u2028", "\u2029"]
 ID_START_EXTRA = ["π", "µ", "é", "ñ", "Δ", "θ"]   # π µ é ñ Δ θ
+# XID_Continue but NOT XID_Start: combining marks, dependent vowel signs, non-ASCII digits, connector punctuation —
+# legal inside an identifier from its second character on
+ID_CONT_ONLY = ["\u0301", "\u0308", "\u093e", "\u094d", "\u0663", "\u0967", "\u00b7", "\u203f", "\u1e9b\u0323"[1]]
 EMOJI = ["\U0001F600", "\u2764", "\U0001F468"]     # non-ASCII emoji: neither XID_Start nor XID_Continue
 ASCII_LETTERS = "abcdefghijklmnopqrstuvwxyzABCDEFGHIJKLMNOPQRSTUVWXYZ"
 DIGITS = "0123456789"
@@ -55,7 +58,7 @@ def is_ws(c):
 def is_id_start(c):
     if ord(c) < 128:
         return c == "_" or c in ASCII_LETTERS
-    if c in ID_START_EXTRA:
+    if c in ID_START_EXTRA or c in ID_CONT_ONLY:
         return True
     assert c in WS_CHARS or c in EMOJI, "character class unknown to the generator: %r" % c
     return False
@@ -64,7 +67,7 @@ def is_id_start(c):
 def is_id_continue(c):
     if ord(c) < 128:
         return c == "_" or c in ASCII_LETTERS or c in DIGITS
-    if c in ID_START_EXTRA:
+    if c in ID_START_EXTRA or c in ID_CONT_ONLY:
         return True
     assert c in WS_CHARS or c in EMOJI, "character class unknown to the generator: %r" % c
     return False
@@ -153,7 +156,7 @@ def gen_ident(rnd):
                             "E", "e", "_a", "__", "_1", "a_", "dimx", "ints"])
         else:
             alpha0 = ASCII_LETTERS + "_" + "".join(ID_START_EXTRA) * 2
-            alpha = alpha0 + DIGITS
+            alpha = alpha0 + DIGITS + "".join(ID_CONT_ONLY)
             s = rnd.choice(alpha0) + "".join(rnd.choice(alpha) for _ in range(rnd.randint(0, 7)))
         if s in KEYWORDS or s in TYPES or s == "_":
             continue
